@@ -24,6 +24,15 @@ Theorem C19_source_table :
   aesgcm_decrypt_length_guard = true /\ aesctr_iv_length_guard = true.
 Proof. exact (conj handlers_guarded helper_guards). Qed.
 
+(* fixed-size conversions of caller-supplied bytes: with the tests the CURRENT source has (generated
+   facts) neither the secret of a joined group (any length a self-authenticating invitation may carry)
+   nor the nonce of a push payload can crash the node; without the test any other length does *)
+Theorem C19_fixed_size_conversions :
+  (forall len, fixed_size group_secret_length_guard len 32 <> SlicePanic) /\
+  (forall len, fixed_size push_nonce_length_checked len 24 <> SlicePanic) /\
+  (forall len size, len <> size -> fixed_size false len size = SlicePanic).
+Proof. exact (conj group_secret_safe (conj push_nonce_safe fixed_size_unguarded_panics)). Qed.
+
 (* the model exhibits the crash when a guard is missing (it is not vacuously safe) *)
 Theorem C19_unguarded_refuted :
   (forall n, handle (n, true, false, false) false = Panics) /\
@@ -42,6 +51,7 @@ Proof. exact aesctr_stream_safe. Qed.
 
 Print Assumptions C19_handlers_never_panic_partial.
 Print Assumptions C19_deactivated_account_group_refused.
+Print Assumptions C19_fixed_size_conversions.
 Print Assumptions C19_source_table.
 Print Assumptions C19_unguarded_refuted.
 Print Assumptions C19_aesgcm_decrypt_split_safe.
